@@ -31,6 +31,8 @@ def run(prog, report, tier):
     meshrules.check_vreuse(prog, report)
     meshrules.check_initial_wiring(prog, report)
     stale.check_drivers(prog, report)
+    meshrules.check_marking(prog, report)
+    meshrules.check_gmsh(prog, report)
     stale.all_refine_loops_known(prog, report)
     report.floor('R-stale', 13)
     report.assumptions.append(
